@@ -22,7 +22,8 @@ WIRE = ['-f', '10', '-w', '2,-5000,-5000,-5000,-5000,-5000,-4990,0.001', '--exci
 
 
 def counts(tier):
-    return list(range(1, 13)) + [17, 33, 64, 100] if tier == 'quick' else list(range(1, 101))
+    # beyond 100 (the statement's range) a few counts around powers of two: batching of points must not lose a tail
+    return (list(range(1, 13)) + [17, 33, 64, 100] if tier == 'quick' else list(range(1, 101))) + [127, 128, 129, 200, 257]
 
 
 def bounds(tier, seed):
@@ -36,7 +37,7 @@ def cases(tier, seed):
             for st in STEPS:
                 yield dict(kind='nf1', axis=axis, start=s, step=st, counts=cs)
     for s, st in itertools.product([0.1, -0.3, 1.], [0.1, 1. / 3, -0.5]):
-        for n in itertools.product((1, 2, 3, 4), repeat=3):
+        for n in list(itertools.product((1, 2, 3, 4), repeat=3)) + [(5, 5, 6), (7, 7, 7), (16, 8, 1), (13, 1, 10)]:
             if sum(1 for x in n if x > 1) >= 2:
                 yield dict(kind='nf3', start=s, step=st, n=list(n))
     for ang in ('theta', 'phi'):
@@ -48,7 +49,9 @@ def cases(tier, seed):
             yield dict(kind='ff2', start=s, step=st, n=list(n))
     # three-axis grids and two-angle tables through the command line: order of the printed blocks / rows
     for s, st in itertools.product([0.1, -0.3], [0.1, 1. / 3, -0.5]):
-        for n in ((2, 3, 2), (3, 1, 2), (1, 2, 3), (2, 2, 1), (4, 3, 2)):
+        for n in ((2, 3, 2), (3, 1, 2), (1, 2, 3), (2, 2, 1), (4, 3, 2), (5, 5, 6), (7, 7, 7)):
+            if max(n) > 4 and (s, st) != (0.1, 0.1):
+                continue
             yield dict(kind='cli3', start=s, step=st, n=list(n))
     # through the command line + report
     rc = [1, 2, 3, 4, 7, 10] if tier == 'quick' else [1, 2, 3, 4, 5, 7, 10, 13, 21, 30]
